@@ -107,6 +107,10 @@ def evaluate_all(b, x):
     ds = b.calculate_likelihood_and_derivatives(xv, scaled=True, hessian=True, bhhh=True)
     ds2 = b.calculate_likelihood_and_derivatives(xv, scaled=True, hessian=False, bhhh=True)     # BHHH asked without Hessian
     ds3 = b.calculate_likelihood_and_derivatives(xv, scaled=False, hessian=False, bhhh=True)
+    # the caller keeps the results and reads them only after the same object has been asked about ANOTHER point (derivatives
+    # collected at several points and compared afterwards): what was reported for x stays what was reported for x
+    b.calculate_likelihood_and_derivatives(xv + 0.125, scaled=False, hessian=True, bhhh=True)
+    b.calculate_likelihood_and_derivatives(xv - 0.25, scaled=True, hessian=True, bhhh=True)
     return dict(names=names, ll=ll, lls=lls, f=float(d.function), g=[float(v) for v in d.gradient],
                 h=[[float(v) for v in r_] for r_ in d.hessian], bh=[[float(v) for v in r_] for r_ in d.bhhh],
                 fs=float(ds.function), gs=[float(v) for v in ds.gradient],
